@@ -542,8 +542,6 @@ class BaseEvent(BaseModel, Generic[T_EventResultType]):
         event_results_by_handler_id: dict[PythonIdStr, EventResult[T_EventResultType]] = {
             handler_key: result for handler_key, result in included_results.items()
         }
-        for event_result in event_results_by_handler_id.values():
-            assert event_result.result is not None, f'EventResult {event_result} has no result'
 
         return event_results_by_handler_id
 
